@@ -270,6 +270,52 @@ def check_axisperm(ctx):
         ctx.undec('R-AXISPERM', q, where, 'removal idiom not recognised')
 
 
+VARSTORE_OK = {
+    'PseudoNetCDFFile.createVariable': 'the primitive: allocates from the parent dimension lengths',
+    'PseudoNetCDFFile.reorderDimensions': 'stores a copy whose .dimensions tuple was rebuilt together with the axes (R-AXISPERM)',
+    'PseudoNetCDFFile.eval': 'stores only PseudoNetCDFVariable results that carry their own non-empty dimension tuple; other results go through createVariable',
+}
+
+
+def check_varstore(ctx):
+    """R-VARSTORE: results are populated through createVariable/copyVariable (which size arrays from the file dimensions);
+    direct stores into a variable table bypass that and are confined to a frozen, reasoned list of sites."""
+    ctx.rule('R-VARSTORE', 'direct stores into X.variables[...] only at the frozen sites; everything else goes through create/copyVariable')
+    mod = ctx.src.mod('core/_files.py')
+    n = 0
+    for q, fn in sorted(mod.functions.items()):
+        parts = q.split('.')
+        if len(parts) != 2 or parts[0] not in ('PseudoNetCDFFile', 'netcdf'):
+            continue
+        for st in iter_stmts(fn.body):
+            if isinstance(st, ast.Assign):
+                for t in st.targets:
+                    for tt in (t.elts if isinstance(t, ast.Tuple) else [t]):
+                        if isinstance(tt, ast.Subscript) and isinstance(tt.value, ast.Attribute) and tt.value.attr == 'variables':
+                            n += 1
+                            where = 'src/PseudoNetCDF/core/_files.py %s' % q
+                            if q in VARSTORE_OK:
+                                ctx.ok('R-VARSTORE', '%s:%s' % (q, norm(st)[:50]), where, VARSTORE_OK[q])
+                            else:
+                                ctx.violation(Finding('R-VARSTORE', 'core/_files.py', q, st,
+                                                      'an array is stored directly into the variable table: nothing ties its shape/dimension names '
+                                                      'to the dimensions of the result file (the other operations allocate with createVariable/copyVariable)'))
+    # the two reasoned sites keep their obligations
+    t = norm(mod.func('PseudoNetCDFFile.reorderDimensions'))
+    if 'newvals.dimensions = tuple(varorder)' in t and t.index('newvals.dimensions = tuple(varorder)') < t.index('outf.variables[vk] = newvals'):
+        ctx.ok('R-VARSTORE', 'reorderDimensions: dimensions rebuilt before the store', 'src/PseudoNetCDF/core/_files.py PseudoNetCDFFile.reorderDimensions', 'holds')
+    else:
+        ctx.violation(Finding('R-VARSTORE', 'core/_files.py', 'PseudoNetCDFFile.reorderDimensions', 'outf.variables[vk] = newvals',
+                              'the reordered array is stored without rebuilding its dimension tuple', lineno=mod.func('PseudoNetCDFFile.reorderDimensions').lineno))
+    t = norm(mod.func('PseudoNetCDFFile.eval'))
+    if 'isinstance(val, (PseudoNetCDFVariable,)) and val.dimensions != ()' in t:
+        ctx.ok('R-VARSTORE', 'eval: direct store guarded', 'src/PseudoNetCDF/core/_files.py PseudoNetCDFFile.eval', 'only dimensioned PseudoNetCDFVariable results')
+    else:
+        ctx.violation(Finding('R-VARSTORE', 'core/_files.py', 'PseudoNetCDFFile.eval', 'outf.variables[key] = val',
+                              'eval stores results directly without the dimensioned-variable guard', lineno=mod.func('PseudoNetCDFFile.eval').lineno))
+    ctx.floor('direct variable-table stores', n, 3)
+
+
 def run(ctx):
     ctx.rule('R-UNLIM', 'createDimension of a surviving key is paired with a setunlimited derived from the source dimension')
     ctx.rule('R-NCATTR', 'attribute-name list written only by life-cycle methods, in step with the attribute store')
@@ -288,3 +334,4 @@ def run(ctx):
     # surviving dimensions must not be re-created with the raw primitive where the siblings use copyDimension: handled by check_unlim
     check_ncattr(ctx)
     check_axisperm(ctx)
+    check_varstore(ctx)
